@@ -228,7 +228,13 @@ class Sim:
         if self.verbose:
             print(self.steps, *a, flush=True)
 
+    C11_MAP = {("C01", "double-placement"): "job-handed-to-hpc-twice", ("C01", "job-started-twice"): "job-started-twice", ("C02", "started-before-blocker"): "started-before-blocker"}
+
     def viol(self, prop, key, text):
+        if self.scen.get("c11") and (prop, key) in self.C11_MAP and self.faults_injected:
+            key = self.C11_MAP[(prop, key)]
+            prop = "C11"
+            text = f"after fault {self.faults_injected[0]}: {text}"
         self.violations.append({"prop": prop, "key": key, "text": text, "step": self.steps, "epoch": self.epoch})
         self.log("VIOLATION", prop, key, text)
 
@@ -664,7 +670,8 @@ class Sim:
         if inj == "fail":
             if r is not None:
                 r["sb_fail"] += 1
-            self.faults_injected.append(("sbatch_fail", script))
+            if not fa:
+                self.faults_injected.append(("sbatch_fail", script))
             self.log("SBATCH_FAIL", script)
             try:
                 names = oracle_batch.read_batch(self.root, script)[0]
@@ -719,7 +726,8 @@ class Sim:
         fa = self.fault_at(a, msg, "squeue")
         f = self.scen.get("faults") or {}
         if fa == "fail" or (f.get("squeue_fail") and self.rng.random() < f["squeue_fail"]):
-            self.faults_injected.append(("squeue_fail", a.host))
+            if not fa:
+                self.faults_injected.append(("squeue_fail", a.host))
             self.log("SQUEUE_FAIL", a.host)
             if r is not None:
                 r["sq_fail"] = r.get("sq_fail", 0) + 1
@@ -886,6 +894,10 @@ class Sim:
         if self.rpc_counts[key] >= first and self.rpc_counts[key] < first + 7:
             if self.rpc_counts[key] == first + 6:
                 self.crash_done = True
+            if self.rpc_counts[key] == first:
+                self.faults_injected.append((f"{what}_{tgt[3]}_all_retries", a.host, f"{what} #{first} of round {tgt[0]}", (what, "", ""), first))
+                if f.get("cont") is not None:
+                    self.rng = random.Random(f"{self.seed}:{f['cont']}")
             return tgt[3]
         return None
 
@@ -912,7 +924,7 @@ class Sim:
         if a.pid in self.sub_ord:
             o = self.sub_ord[a.pid]
             self.sub_steps[a.pid] = self.sub_steps.get(a.pid, 0) + 1
-            if f.get("record_points") and o == f["record_points"]:
+            if f.get("record_points") is not None and o == f["record_points"]:
                 self.sub_classes.setdefault(o, []).append(self.point_class(msg))
             if tgt and o == tgt[0] and self.sub_steps[a.pid] == tgt[1] and not self.crash_done:
                 self.crash_done = True
@@ -925,6 +937,9 @@ class Sim:
                 cls = self.point_class(msg)
                 self.faults_injected.append((kind, a.host, a.cmd[:40], cls, tgt[1]))
                 self.status_faults.append(kind)
+                if f.get("cont") is not None:
+                    self.rng = random.Random(f"{self.seed}:{f['cont']}")
+                    self.scen["user"] = {"try_submit": 2, "show_status": 1, "p": 0.02}
                 self.log("FAULT", kind, a.host, a.cmd[:40], cls, "k", tgt[1])
                 self.rows_on_disk()
                 if a.pid in self.rounds:
@@ -1348,10 +1363,11 @@ class Sim:
         self.recoveries += 1
         tag = f"recover{self.epoch}_{self.recoveries}"
         use_status = self.rng.random() < 0.25
+        host = "login" if self.ff else self.rng.choice(["login", "login", "login2"])
         if use_status:
-            self.spawn_top(tag, ["jade", "show-status", "-o", self.outname, "-n"], "login")
+            self.spawn_top(tag, ["jade", "show-status", "-o", self.outname, "-n"], host)
         else:
-            self.spawn_top(tag, ["jade", "try-submit-jobs", self.outname], "login")
+            self.spawn_top(tag, ["jade", "try-submit-jobs", self.outname], host)
         self.recover_check = (tag, len(self.sbatches))
         return True
 
@@ -1365,7 +1381,7 @@ class Sim:
         self.spawn_top("submit", argv, "login")
         try:
             self.drive()
-            if not self.obs and self.top_rc.get("submit") not in (0, None) and not self.scen.get("expect_reject") and mode != "local":
+            if not self.obs and self.top_rc.get("submit") not in (0, None) and not self.scen.get("expect_reject") and mode != "local" and not self.faults_injected:
                 try:
                     tail = open(os.path.join(self.root, "top_submit.log")).read()[-400:]
                 except OSError:
@@ -1432,11 +1448,18 @@ class Sim:
         self.final = final
         self.missing = missing
         canceled_run = self.cancel_started is not None and last and last["canceled"]
-        if self.ff_now and not canceled_run and not scen.get("cycle") and self.cancel_started is None:
+        only_squeue = bool(self.faults_injected) and all(str(f_[0]).startswith("squeue") for f_ in self.faults_injected)
+        if scen.get("c11") and only_squeue:
+            n0 = len(self.violations)
+            self.final_ff(final, missing, complete, placed)
+            for v in self.violations[n0:]:
+                v["text"] = f"after a transient squeue failure ({self.faults_injected[0][2]}): [{v['prop']}:{v['key']}] {v['text']}"
+                v["prop"], v["key"] = "C11", "squeue-failure-not-transient"
+        elif self.ff_now and not canceled_run and not scen.get("cycle") and self.cancel_started is None:
             self.final_ff(final, missing, complete, placed)
         elif not self.ff or scen.get("cycle") or (not self.ff_now and self.cancel_started is None):
             self.final_faulty(final, missing, complete)
-        if final is not None and missing is not None:
+        if final is not None and missing is not None and not self.status_faults:
             self.final_tally(final, missing)
         self.final_hooks(complete)
 
